@@ -20,7 +20,7 @@ pub struct Root {
 pub struct StateRec {
     pub parent: u32,
     pub op: u16,
-    pub root: u16,
+    pub root: u32,
     pub depth: u16,
 }
 
@@ -32,6 +32,8 @@ pub struct VRec {
     pub root: usize,
     pub hist: Vec<Op>,
     pub op: Option<Op>,
+    /// "transition" | "state" | "fault"
+    pub mode: &'static str,
 }
 
 pub struct ExploreOpts {
@@ -43,7 +45,7 @@ pub struct ExploreOpts {
     pub transitions: bool,
     pub max_violations: usize,
     /// optional extra per-state hook (fault enumeration etc.)
-    pub extra: Option<Arc<dyn Fn(&Ctx, &Config, &[Op], &mut Stats) -> Vec<VRecLite> + Send + Sync>>,
+    pub extra: Option<Arc<dyn Fn(&Ctx, &Config, &[Op], &mut Stats) -> crate::faults::ExtraOut + Send + Sync>>,
 }
 
 pub struct VRecLite {
@@ -66,9 +68,14 @@ pub struct ExploreResult {
     pub samples: Vec<(usize, Vec<Op>)>,
     pub level_sizes: Vec<usize>,
     pub wall_s: f64,
+    /// states reached by a fault whose canonical key is not a state of this
+    /// exploration: (root, full history, key), deduplicated, deterministic order
+    pub novel: Vec<(usize, Vec<Op>, Vec<u8>)>,
+    pub fault_states: u64,
 }
 
 struct WorkOut {
+    novel: Vec<(Vec<Op>, Vec<u8>)>,
     new: Vec<(u16, Vec<u8>)>,
     viol: Vec<VRec>,
     stats: Stats,
@@ -108,7 +115,7 @@ impl<'a> Explorer<'a> {
         let (root, hist) = self.history(id);
         let cfg = self.roots[root].cfg;
         let key = self.keys[id as usize].clone();
-        let mut out = WorkOut { new: vec![], viol: vec![], stats: Stats::default(), machinery: None };
+        let mut out = WorkOut { novel: vec![], new: vec![], viol: vec![], stats: Stats::default(), machinery: None };
         if let Some(so) = &opts.state_opts {
             let r = check_state(self.ctx, &cfg, &hist, Some(&key), so, &mut out.stats);
             if let Some(m) = r.machinery {
@@ -116,14 +123,24 @@ impl<'a> Explorer<'a> {
                 return out;
             }
             for x in r.viol {
-                out.viol.push(VRec { props: x.props, rule: x.rule, detail: x.detail, root, hist: hist.clone(), op: None });
+                out.viol.push(VRec { props: x.props, rule: x.rule, detail: x.detail, root, hist: hist.clone(), op: None, mode: "state" });
             }
         }
         if let Some(f) = &opts.extra {
-            for x in f(self.ctx, &cfg, &hist, &mut out.stats) {
+            let eo = f(self.ctx, &cfg, &hist, &mut out.stats);
+            for x in eo.viol {
+                if x.rule == "machinery" {
+                    out.machinery = Some(format!("{} (history {:?}, op {:?})", x.detail, hist, x.op));
+                    return out;
+                }
                 let mut h = hist.clone();
                 h.extend(x.extra_hist);
-                out.viol.push(VRec { props: x.props, rule: x.rule, detail: x.detail, root, hist: h, op: x.op });
+                out.viol.push(VRec { props: x.props, rule: x.rule, detail: x.detail, root, hist: h, op: x.op, mode: "fault" });
+            }
+            for (eh, k) in eo.novel {
+                let mut h = hist.clone();
+                h.extend(eh);
+                out.novel.push((h, k));
             }
         }
         if do_transitions && opts.transitions {
@@ -135,7 +152,7 @@ impl<'a> Explorer<'a> {
                 }
                 let violated = !t.viol.is_empty();
                 for x in t.viol {
-                    out.viol.push(VRec { props: x.props, rule: x.rule, detail: x.detail, root, hist: hist.clone(), op: Some(op) });
+                    out.viol.push(VRec { props: x.props, rule: x.rule, detail: x.detail, root, hist: hist.clone(), op: Some(op), mode: "transition" });
                 }
                 if let Some(k) = t.post_key {
                     if !violated && !self.seen.contains_key(&k[..]) {
@@ -161,7 +178,10 @@ impl<'a> Explorer<'a> {
             samples: vec![],
             level_sizes: vec![],
             wall_s: 0.0,
+            novel: vec![],
+            fault_states: 0,
         };
+        let mut pending_novel: Vec<(usize, Vec<Op>, Vec<u8>)> = vec![];
         // roots
         let mut frontier: Vec<u32> = vec![];
         for (ri, r) in self.roots.iter().enumerate() {
@@ -177,7 +197,7 @@ impl<'a> Explorer<'a> {
                     let k: Arc<[u8]> = s.key.into();
                     if !self.seen.contains_key(&k) {
                         let id = self.states.len() as u32;
-                        self.states.push(StateRec { parent: u32::MAX, op: 0, root: ri as u16, depth: 0 });
+                        self.states.push(StateRec { parent: u32::MAX, op: 0, root: ri as u32, depth: 0 });
                         self.keys.push(k.clone());
                         self.seen.insert(k, id);
                         frontier.push(id);
@@ -206,6 +226,11 @@ impl<'a> Explorer<'a> {
                     }
                 }
                 let parent = frontier[fi];
+                let proot = self.states[parent as usize].root as usize;
+                for (h, k) in out.novel {
+                    res.fault_states += 1;
+                    pending_novel.push((proot, h, k));
+                }
                 for (oi, k) in out.new {
                     if !self.seen.contains_key(&k[..]) {
                         let id = self.states.len() as u32;
@@ -245,6 +270,14 @@ impl<'a> Explorer<'a> {
         }
         res.states = self.states.len();
         res.transitions = res.stats.transitions;
+        {
+            let mut ns: std::collections::HashSet<Vec<u8>> = std::collections::HashSet::new();
+            for (r, h, k) in pending_novel {
+                if !self.seen.contains_key(&k[..]) && ns.insert(k.clone()) {
+                    res.novel.push((r, h, k));
+                }
+            }
+        }
         // samples: a few witness histories spread over the state set
         let n = self.states.len();
         if n > 0 {
